@@ -13,7 +13,29 @@ HARNESSES = {
     'mc_fe': dict(src=['mc_fe.c'], flavour='asan'),
     'mc_endpointer': dict(src=['mc_endpointer.c'], flavour='asan', ldflags=['-Wl,--wrap=vad_classify']),
     'mc_numeric': dict(src=['mc_numeric.c'], flavour='ovf', ldflags=['-Wl,--wrap=acmod_score']),
+    'mc_hmm': dict(src=['mc_hmm.c'], flavour='ovf'),
 }
+
+
+def _hmm_runs(regime, tier):
+    """the HMM evaluator driven directly (harness/mc_hmm.c): regime A = one-step reference Viterbi far from the floor (C02),
+    regime B = floor/wrap-around closure from the cleared object and from states just above WORST_SCORE (C18)"""
+    r = []
+    q = tier == 'quick'
+    for n in (3, 5, 1, 2, 4):
+        tmats = range(6) if n in (3, 5) else range(4)
+        for t in tmats:
+            if regime == 'A':
+                d = (4 if q else 5) if n != 5 else (4 if q else 5)
+                r.append(dict(h='mc_hmm', label='hmm-optimum-%dst-tmat%d' % (n, t), args=['--regime', 'A', '--nst', str(n), '--tmat', str(t), '--depth', str(d)]))
+            else:
+                if q and t > 1 and n != 3:
+                    continue
+                for i in range(4):
+                    d = 2 if (q or n == 5) else 3
+                    r.append(dict(h='mc_hmm', label='hmm-floor-%dst-tmat%d-init%d' % (n, t, i),
+                                  args=['--regime', 'B', '--nst', str(n), '--tmat', str(t), '--init', str(i), '--depth', str(d)]))
+    return r
 
 TRUST = ['gcc 12 / AddressSanitizer / UBSan runtime', 'the reference model in the harness source',
          'library objects compiled from /repo working tree by tools/build_lib.sh (gcc -O1, asserts on)']
@@ -473,14 +495,19 @@ CHECKS = {
         min_nontrivial_ratio=0.05,
         title='with pruning disabled the search returns the true Viterbi optimum',
         level='exploration',
-        runs={'quick': _dec_runs('C02', _c02_specs('quick')), 'thorough': _dec_runs('C02', _c02_specs('thorough'))},
+        runs={'quick': _dec_runs('C02', _c02_specs('quick')) + _hmm_runs('A', 'quick'), 'thorough': _dec_runs('C02', _c02_specs('thorough')) + _hmm_runs('A', 'thorough')},
         budget_s={'quick': 400, 'thorough': 3000},
         coverage=ex_cov,
         rule='grammars x utterances as for C01, beams fully open (beam=pbeam=wbeam=0, maxhmmpf=-1) x {fillers on/off, alternates on/off, '
              'lw 1|6.5, wip/pip default|(0.2,0.5)}; oracle: token-passing Viterbi in the same integer arithmetic over the explicitly '
              'expanded network (one HMM unit per word arc x phone x context variant, triphones from bin_mdef_phone_id_nearest, no tree, no '
              'sharing, no history domination, no beams) must give exactly the reported score; default/tight beams: reported <= optimum '
-             '(compared when the result spans all frames). non-trivial = a hypothesis was returned',
+             '(compared when the result spans all frames). non-trivial = a hypothesis was returned. '
+             'PLUS the HMM evaluator driven directly (mc_hmm, regime A): E-BFS over histories of {enter 0|-10|none} x {senone cost vectors over {0,9,700}^n} '
+             'frames, clear and normalise on one real hmm_t to depth 4 (quick) / 5 (thorough), for the 3-state, the 5-state and the generic evaluator (1, 2, 4 '
+             'emitting states) x 4-6 transition matrices incl. skip arcs, forbidden arcs, states without self-loop: after EVERY transition every '
+             'state score, the exit score, the returned best score and every history pointer must equal one step of a 64-bit reference Viterbi '
+             'recursion computed from the state before the transition',
         assumptions=DEC_ASSUME + ['the reference expands the grammar the search runs on (after add_silence/add_alt/closure, which C13 covers)',
                                   'context conventions granted to the decoder are those documented in fsg_lextree.c/fsg_search.c (see harness/refviterbi.h)'] + TRUST,
     ),
@@ -604,7 +631,7 @@ CHECKS = {
     'C18': dict(
         title='features and scores stay finite and within range for any audio',
         level='exploration',
-        runs={'quick': _c18_runs('quick'), 'thorough': _c18_runs('thorough')},
+        runs={'quick': _c18_runs('quick') + _hmm_runs('B', 'quick'), 'thorough': _c18_runs('thorough') + _hmm_runs('B', 'thorough')},
         budget_s={'quick': 600, 'thorough': 5400},
         coverage=ex_cov,
         rule='audio as a sequence of 10 ms frame types {zeros, +32767, -32768, full-scale Nyquist square, impulse, DC +1, white noise, speech '
@@ -617,7 +644,12 @@ CHECKS = {
              'only the active ones (the default) incl. down-sampled Gaussian selection; one chain with the worst possible scores injected (20000 / 70000 frames). At EVERY scored frame: every feature component finite, every senone score '
              'in [0,32767] with minimum 0; after the utterance: path and segment scores in (WORST_SCORE,0], normalisation state finite, its '
              'text export re-imports to bit-identical floats and re-exports to the same text. Library built with signed-overflow and '
-             'float-cast-overflow traps. non-trivial = the utterance was scored to the end without a rejected call',
+             'float-cast-overflow traps. non-trivial = the utterance was scored to the end without a rejected call. '
+             'PLUS the HMM evaluator driven directly (mc_hmm, regime B): E-BFS over histories of {enter 0 | enter WORST_SCORE+5 | none} x {senone costs '
+             'over {0,32767}^n} frames and clear, to depth 2 (3 in the thorough tier), from the cleared HMM and from three states just above '
+             'WORST_SCORE, for the 3-state, 5-state and generic (1,2,4 states) evaluators x transition matrices; in every state the closure '
+             'operation "16500 worst frames" must end in a FIXPOINT (one more frame changes nothing), and no transition may produce a positive '
+             'score or one better than the best score before it (costs are non-negative: that is a wrap-around); signed-overflow trap on',
         assumptions=['one bundled acoustic model (en-us) plus synthetic codebooks/mixture weights for the scorer modules it does not select; utterances up to 3 minutes',
                      'for the semi-continuous module "normalised to zero" is checked where that module normalises: the best density of each '
                      'stream (mgau_norm); it does not shift senone scores again, as in PocketSphinx',
